@@ -55,6 +55,8 @@ type Broker struct {
 	Log     []LogRec
 	// RefuseDial makes Dial fail (server down).
 	RefuseDial bool
+	// MaxPayload is announced to clients in INFO (0 = 1 MiB).
+	MaxPayload int
 }
 
 // New creates a broker.
@@ -88,7 +90,13 @@ func (c *client) send(p []byte) {
 }
 
 func (c *client) writer() {
-	info := fmt.Sprintf("INFO {\"server_id\":\"natsim\",\"version\":\"2.1.8\",\"proto\":1,\"host\":\"sim\",\"port\":4222,\"max_payload\":1048576,\"client_id\":%d}\r\n", c.id)
+	c.b.mu.Lock()
+	maxPayload := c.b.MaxPayload
+	c.b.mu.Unlock()
+	if maxPayload == 0 {
+		maxPayload = 1048576
+	}
+	info := fmt.Sprintf("INFO {\"server_id\":\"natsim\",\"version\":\"2.1.8\",\"proto\":1,\"host\":\"sim\",\"port\":4222,\"max_payload\":%d,\"client_id\":%d}\r\n", maxPayload, c.id)
 	if _, err := c.conn.Write([]byte(info)); err != nil {
 		return
 	}
